@@ -21,6 +21,16 @@ Theorem C15_priority_order : forall q n l q',
   /\ q_prefill q' = None.
 Proof. exact take_tasks_order. Qed.
 
+(** With a prefill set: [take_tasks] pops the first [n] tasks of [pop_order] (first ready entry if it has
+    the prefill's priority, then the prefill set, then the other ready entries), and under the queue
+    invariant "the prefill set has the highest priority" that order is by non-increasing priority. *)
+Theorem C15_priority_order_prefill : forall q n l q',
+  take_tasks q n = Ok (l, q') -> l = map snd (firstn (N.to_nat n) (pop_order q)).
+Proof. exact take_tasks_prefill_order. Qed.
+Theorem C15_priority_order_prefill_sorted : forall q,
+  prefill_wf q -> StronglySorted (fun a b => (fst b <= fst a)%N) (pop_order q).
+Proof. exact pop_order_sorted. Qed.
+
 (** The full statement of the property on the model: an optimal solution of the exact row system and a
     dispatch accepted by [mapping_ok] never exhibit an inversion.  It is FALSE of the faithful model
     (and of the real code): see the five refutations below. *)
@@ -73,8 +83,40 @@ Theorem C15_tight_no_inversion_partial : forall I bs s l cut h,
   /\ (capable_total I bs s l h (i_workers I) <= cut + gap_total I l h (i_workers I))%N.
 Proof. exact tight_k1_guarantees. Qed.
 
-(** Candidate exact class (one worker, ONE resource kind, two request classes): not proved in this
-    phase.  With two resource kinds the class is already inexact (K4 witness: one worker, cpus + gpus). *)
+(** What the GAP guarantees (the rationale of the cut + gap rows): on a worker whose accounting is exact
+    (free = resources - assigned), whatever is placed inside [gap_resources w h] - the capacity the
+    blocker class [h] can never use when it is packed onto [w] - leaves room for EVERY task of [h]
+    that fits the worker's free resources.  (The inversions K1..K5 come from granting more than this
+    capacity, or from tasks that are not inside it, never from the gap notion itself.) *)
+Theorem C15_gap_leaves_room : forall I w h G,
+  gap_resources I w h = Ok G ->
+  request_wf (req_of I h) -> request_nodup (req_of I h) ->
+  (exists e, In e (req_of I h) /\ (rv_get (w_res w) (fst e) / snd e < SCHED_MAX_TASK_PER_WORKER)%N) ->
+  (forall r, (rv_get (w_free w) r + demand I (w_assigned w) r)%N = rv_get (w_res w) r) ->
+  forall (U : N -> N), (forall r, (U r <= rv_get G r)%N) ->
+  forall k, (k <= task_max_count (w_free w) (req_of I h))%N ->
+  forall r, (k * amount (req_of I h) r + U r <= rv_get (w_free w) r)%N.
+Proof. exact gap_leaves_room. Qed.
+
+(** An EXACT class: one worker, one resource kind, two request classes - the high class (0) at one
+    priority level [ph], the low class (1) at any number of levels strictly below [ph] (any amounts, any
+    number of tasks, any running tasks): an optimal solution of the exact row system, dispatched by any
+    assignment [mapping_ok] accepts, has no priority inversion.
+    ([R / ah <= MAX_TASK_PER_WORKER]: the worker cannot hold more than 1024 high tasks; [ready_wf] /
+    [NoDup]: the representation invariant of the low class' queue.) *)
+Theorem C15_no_inversion_exact_class : forall R F assigned ah al ph hs lq bs m s d,
+  (0 < ah)%N -> (0 < al)%N -> (F <= R)%N -> (R / ah <= SCHED_MAX_TASK_PER_WORKER)%N ->
+  Forall (fun e : N * list N => (fst e < ph)%N) lq -> ready_wf lq -> NoDup (flat_ids lq) ->
+  create_task_batches (xinst R F assigned ah al ph hs lq) = Ok bs ->
+  milp_of (xinst R F assigned ah al ph hs lq) bs = Ok m -> feasible m s = true ->
+  (forall s', feasible m s' = true -> (objective m s' <= objective m s)%Z) ->
+  mapping_ok (xinst R F assigned ah al ph hs lq) bs s d = true ->
+  inversion (xinst R F assigned ah al ph hs lq) d = false.
+Proof. exact exact_class_no_inversion. Qed.
+
+(** The wider candidate (one worker, one resource kind, two classes with INTERLEAVED priority levels) is not
+    proved; no counterexample in the dedicated harness mode `exact`.  With two resource kinds the class
+    is inexact already (K4 witness: one worker, cpus + gpus). *)
 Definition C15_no_inversion_exact_class_full : Prop :=
   forall I bs m s d w,
     i_workers I = [w] -> i_nres I = 1%N -> length (i_classes I) = 2%nat -> inst_wf I ->
@@ -101,6 +143,8 @@ Check C15_priority_order_encoding : forall p q : Z,
 
 Print Assumptions C15_priority_order_encoding.
 Print Assumptions C15_priority_order.
+Print Assumptions C15_priority_order_prefill.
+Print Assumptions C15_priority_order_prefill_sorted.
 Print Assumptions C15_K1_refuted.
 Print Assumptions C15_K2_refuted.
 Print Assumptions C15_K3_refuted.
@@ -109,4 +153,6 @@ Print Assumptions C15_K5_refuted.
 Print Assumptions C15_cut_semantics.
 Print Assumptions C15_cut_semantics_zero_gap.
 Print Assumptions C15_tight_no_inversion_partial.
+Print Assumptions C15_gap_leaves_room.
+Print Assumptions C15_no_inversion_exact_class.
 Print Assumptions C05_feasible_no_overbook.
